@@ -20,32 +20,26 @@ HOST_BYTES = 3 << 30
 
 
 def value_class(v):
-    """class of a value text: the signature of a finding is keyword + value class"""
-    if v in ("nan", "inf", "-inf", "abc"):
-        return "non-numeric"
+    """class of a value text: the signature of a finding is <object kind>.<keyword>:<value class>"""
     try:
         if re.fullmatch(r"[-+]?\d+", v):
             z = int(v)
             if z == 0:
                 return "zero"
-            if z == -2147483648:
-                return "int-min"
             if z < 0:
                 return "negative"
             if z == 1:
                 return "one"
             if z < 2147483647:
                 return "small-positive"
-            if z == 2147483647:
-                return "int-max"
-            if z % (1 << 61) == 0 and z < (1 << 64):
-                return "multiple-of-2^61"
-            return "beyond-int"
+            return "large"
         x = float(v)
+        if x != x or x in (float("inf"), float("-inf")):
+            return "non-numeric"
         if "." in v and "e" not in v.lower():
             return "fraction"
         if abs(x) >= 1e100:
-            return "huge-real" if x > 0 else "huge-negative-real"
+            return "huge-real"
         if abs(x) <= 1e-100:
             return "tiny-real"
         return "real"
@@ -160,7 +154,8 @@ def check(run):
                     kind, kw, value, ol[1], ol[0]), {"kind": "scenario", "variant": variant, "scenario": scenario})
         if variant == "plain":
             tr = base_trace(res["out"])
-            if tr != ref_trace:
+            nst = scenario.count("\nstep\n")
+            if tr != ref_trace[:3 * nst]:
                 k = next((i for i, (a, b) in enumerate(zip(tr, ref_trace)) if a != b), min(len(tr), len(ref_trace)))
                 run.violation("rollback:behaviour:%s.%s" % (kind, kw),
                               "after the rejected configuration (%s %s = %s) the previously defined objects differ from a run that never saw it: %s vs %s" % (
@@ -170,7 +165,7 @@ def check(run):
     # ------------------------------------------------------------------ 1. guard-table sweep (tie)
     values = list(L.BOUNDARY_VALUES) + ([] if quick else list(L.EXTRA_VALUES))
     # witnesses of the theorems (always run)
-    extra_cases = [("module.colvarsTrajFrequency", "2305843009213693952"), ("colvar.corrFuncLength", "-1"),
+    extra_cases = [("module.colvarsTrajFrequency", "2305843009213693952"), ("colvaroff1.corrFuncLength", "-1"),
                    ("colvar.corrFuncLength", "2147483647"), ("colvar.corrFuncStride", "2147483647"),
                    ("colvar.corrFuncOffset", "-1"), ("meta.gridsUpdateFrequency", "0"), ("meta.newHillFrequency", "0"),
                    ("histrestr.upperBoundary", "2147483647"), ("histrestr.width", "1e-300"), ("opes.colvarsRestartFrequency", "0")]
@@ -192,10 +187,10 @@ def check(run):
         for var in variants:
             if var == "asan" and quick and (e, v) not in [(T.BY_ID[a], b) for a, b in extra_cases]:
                 # quick tier: the sanitizer build runs a seed-dependent third of the table
-                if r.random() > 0.34:
+                if r.random() > 0.2:
                     continue
             jobs.append(((e[0], v, var), plain if var == "plain" else asan, sc,
-                         os.path.join(W, "t", var, e[0], re.sub(r"[^A-Za-z0-9.+-]", "_", v)), var, 25 if var == "plain" else 120))
+                         os.path.join(W, "t", var, e[0], re.sub(r"[^A-Za-z0-9.+-]", "_", v)), var, 12 if var == "plain" else 25))
     mlines = [model_line(e, v) for e, v in cases]
     rc, mout, merr = V.run_lines(model, mlines)
     if len(mout) != len(mlines):
@@ -234,8 +229,11 @@ def check(run):
         if unsafe:
             run.notes.append("model predicts an unsafe use for %s=%s but the %s run survived (%s)" % (eid, v, var, impl))
             continue
+        if kind == "histrestr" and mverdict == "accept" and int(re.search(r"nbins=(-?\d+|big)", mo).group(1).replace("big", "99")) > 8:
+            mverdict = "reject"      # refHistogram of the base configuration has 8 values: more bins are a length error (not modelled)
         if impl != mverdict:
             run.mismatch("table:" + eid, "%s=%s (%s)" % (kw, v, var), impl, mo)
+    run.notes.append("table sweep: %d runs, %.1f s" % (len(jobs), time.time() - t_start))
     run.sample({"table_case": "%s %s=%s" % (cases[0][0][0], cases[0][0][3], cases[0][1]),
                 "model": mout[0], "impl": res[(cases[0][0][0], cases[0][1], "plain")]["cls"]})
 
@@ -250,7 +248,7 @@ def check(run):
         for var in variants:
             if var == "asan" and quick and k % 3 != run.seed % 3:
                 continue
-            jobs.append(((k, var), plain if var == "plain" else asan, sc, os.path.join(W, "g", var, str(k)), var, 40 if var == "plain" else 150))
+            jobs.append(((k, var), plain if var == "plain" else asan, sc, os.path.join(W, "g", var, str(k)), var, 20 if var == "plain" else 60))
     rc, gout, gerr = V.run_lines(model, glines)
     gres = L.run_many(jobs)
     for (k, var), rr in sorted(gres.items()):
@@ -272,6 +270,7 @@ def check(run):
             continue
         if impl != mo.split()[0]:
             run.mismatch("grid:sizes", str(g["dims"]), impl, mo)
+    run.notes.append("after grid sweep: %.1f s" % (time.time() - t_start))
     run.sample({"grid_case": gcases[0]["dims"], "model": gout[0] if gout else None})
 
     # ------------------------------------------------------------------ 3. roll-back (tie of parse_config)
@@ -300,9 +299,10 @@ def check(run):
                 run.violation("rollback:lists", "object lists after a configuration with rejected blocks: %s (rejected blocks: %s)" % (
                     ol[1] if len(ol) >= 2 else ol, c["failing_names"]), {"kind": "scenario", "scenario": c["scenario"]})
         tr = base_trace(rr["out"])
-        if tr != ref_trace:
+        if tr != ref_trace[:3 * c["scenario"].count("\nstep\n")]:
             run.violation("rollback:behaviour", "previously defined objects behave differently after configuration %s" % c["model"],
                           {"kind": "scenario", "scenario": c["scenario"]})
+    run.notes.append("after rollback sweep: %.1f s" % (time.time() - t_start))
     run.sample({"rollback_case": rcases[0]["model"], "model": rout[0] if rout else None})
 
     # ------------------------------------------------------------------ 4. search: harvested keywords
@@ -334,7 +334,6 @@ def gen_grid_cases(r, n):
         ("65536^4-wraps-to-0", [("0", "65536", "1")] * 4, False),
         ("46341^2-just-above-int", [("0", "46341", "1"), ("0", "46341", "1")], False),
         ("1024^2", [("0", "1024", "1"), ("0", "1024", "1")], False),
-        ("2^27-bins-ambiguous", [("0", "134217728", "1")], True),
     ]
     out = [{"label": l, "dims": d, "ambiguous": a} for l, d, a in fixed]
     sizes = [1, 2, 3, 16, 1000, 65536, 46341, 2147483647, 2147483648, 4294967296]
@@ -495,7 +494,7 @@ def search(run, r, plain, asan, W, quick, report_death, check_survivors_search, 
     ref = L.run_scenario(plain, big_scenario("", None, 5).replace("config EOF\n\nEOF\nobjs\n", ""), d, "plain", 60)
     ref_trace = [l for l in ref["out"].split("\n") if l.startswith("CV zz0 ") or l.startswith("BIAS hh0 ")]
     texts = dict((n, t) for n, t, _ in hv)
-    n = 140 if quick else 6000
+    n = 90 if quick else 6000
     values = L.BOUNDARY_VALUES + L.EXTRA_VALUES
     jobs = []
     meta = {}
@@ -533,7 +532,7 @@ def search(run, r, plain, asan, W, quick, report_death, check_survivors_search, 
         exe = plain
         if asan and k % 3 == 0:
             variant, exe = "asan", asan
-        jobs.append((k, exe, sc, d, variant, 25 if variant == "plain" else 150))
+        jobs.append((k, exe, sc, d, variant, 12 if variant == "plain" else 60))
         meta[k] = (label, kw, v, variant, sc, name)
     # run in slices so that the deadline is respected
     done = 0
